@@ -8,6 +8,7 @@ pub mod selftest;
 pub mod c15;
 pub mod c17;
 pub mod c18;
+pub mod c20;
 
 /// (property id, evidence level, check function)
 pub const REGISTRY: &[(&str, &str, fn(&mut Ctx))] = &[
@@ -15,6 +16,7 @@ pub const REGISTRY: &[(&str, &str, fn(&mut Ctx))] = &[
     ("C15", "model_checking", c15::run),
     ("C17", "model_checking", c17::run),
     ("C18", "exploration", c18::run),
+    ("C20", "exploration", c20::run),
 ];
 
 pub fn replay(id: &str, case: &Value) -> Result<String, String> {
@@ -23,6 +25,7 @@ pub fn replay(id: &str, case: &Value) -> Result<String, String> {
         "C15" => c15::replay(case),
         "C17" => c17::replay(case),
         "C18" => c18::replay(case),
+        "C20" => c20::replay(case),
         _ => Err(format!("no replayer for {id}")),
     }
 }
